@@ -47,9 +47,9 @@ var fkinds = []fkind{
 		return &rag.Chunk{ID: "G", Text: "x", Metadata: rag.ChunkMetadata{PageStart: 1, PageEnd: 9, SectionTitle: "Deep",
 			ElementTypes: []string{""}, EstimatedTokens: math.MaxInt32}}
 	}},
-	{"H", func() *rag.Chunk { // negative token estimate, page 0
+	{"H", func() *rag.Chunk { // smallest positive token estimate, page 0 (a negative count is not a valid chunk: exports omit non-positive counts)
 		return &rag.Chunk{ID: "", Text: "o w", Metadata: rag.ChunkMetadata{PageStart: 0, PageEnd: 0, SectionTitle: "Methods",
-			SectionPath: []string{"Methods, Results"}, ElementTypes: []string{"list", "list"}, EstimatedTokens: -1}}
+			SectionPath: []string{"Methods, Results"}, ElementTypes: []string{"list", "list"}, EstimatedTokens: 1}}
 	}},
 }
 
@@ -144,7 +144,7 @@ func predicates() []pred {
 	add("tables", (*rag.ChunkCollection).FilterWithTables, func(c *rag.Chunk) bool { return c.Metadata.HasTable })
 	add("lists", (*rag.ChunkCollection).FilterWithLists, func(c *rag.Chunk) bool { return c.Metadata.HasList })
 	add("images", (*rag.ChunkCollection).FilterWithImages, func(c *rag.Chunk) bool { return c.Metadata.HasImage })
-	for _, n := range []int{math.MinInt32, -1, 0, 9, 10, 11, math.MaxInt32, math.MaxInt64} {
+	for _, n := range []int{math.MinInt32, -1, 0, 1, 2, 9, 10, 11, math.MaxInt32, math.MaxInt64} {
 		n := n
 		add(fmt.Sprintf("mintok:%d", n), func(cc *rag.ChunkCollection) *rag.ChunkCollection { return cc.FilterByMinTokens(n) },
 			func(c *rag.Chunk) bool { return c.Metadata.EstimatedTokens >= n })
